@@ -268,9 +268,12 @@ def defaultRockExtra : Dict :=
 
 /-- `x >= n` for a Python number -/
 def _root_.Model.Val.ge (v : Val) (n : Int) : Except Exc Bool :=
-  match v.rat? with
-  | some r => .ok (decide (mkRat n 1 ≤ r))
-  | Option.none => .error .typeError
+  match v with
+  | .int i => .ok (decide (n ≤ i))
+  | _ =>
+    match v.rat? with
+    | some r => .ok (decide (mkRat n 1 ≤ r))
+    | Option.none => .error .typeError
 
 def writeRP (r : Rec) (p : Option RP) : Except Exc Str :=
   match p with
